@@ -169,18 +169,17 @@ func (ch *Channel) runWriter(writerTerminate chan struct{}) error {
 	for {
 		select {
 		case what := <-ch.chWrite:
+			// a write that fails (transport error, message that cannot be encoded
+			// for this channel) must not terminate the writer: nobody waits for its
+			// result until the channel is closed, and the channel would stay open
+			// while silently discarding everything written to it afterwards.
+			// Transport errors that are permanent are detected by the reader.
 			switch wh := what.(type) {
 			case message.Message:
-				err := ch.streamWriter.Write(wh)
-				if err != nil {
-					return err
-				}
+				ch.streamWriter.Write(wh) //nolint:errcheck
 
 			case frame.Frame:
-				err := ch.frameWriter.Write(wh)
-				if err != nil {
-					return err
-				}
+				ch.frameWriter.Write(wh) //nolint:errcheck
 			}
 
 		case <-writerTerminate:
